@@ -43,10 +43,10 @@ Writes(f) == f \in Mutates
 
 -----------------------------------------------------------------------------
 (* Contexts: ctx_k = execution k.  From and To advance (Tail: From = newest line + 1 ns, To = now).          *)
-Slots == 1..7
-From(k) == CASE k = 1 -> 1 [] k = 2 -> 2 [] OTHER -> 4
-To(k)   == CASE k = 1 -> 5 [] k = 2 -> 6 [] OTHER -> 8
-DayOf(t) == IF CrossDay /\ t >= 4 THEN 2 ELSE 1
+Slots == 1..5
+From(k) == CASE k = 1 -> 1 [] k = 2 -> 2 [] OTHER -> 3
+To(k)   == CASE k = 1 -> 4 [] k = 2 -> 5 [] OTHER -> 6
+DayOf(t) == IF CrossDay /\ t >= 3 THEN 2 ELSE 1
 Day(k) == DayOf(From(k))          \* the date bound rendered from ctx.From
 
 -----------------------------------------------------------------------------
@@ -162,7 +162,8 @@ WrittenBy(f, f2) ==
   \cup (IF f.lcache # f2.lcache THEN {"ByWithoutPlanner.LabelsCache"} ELSE {})
   \cup (IF f.fmt # f2.fmt THEN {"LineFormatPlanner.formatStr"} ELSE {})
   \cup (IF f.conds # f2.conds THEN {"AttrConditionPlanner.sqlConds"} ELSE {})
-  \cup (IF f.where # f2.where THEN {"AttrConditionPlanner.where"} ELSE {})
+  \* (maybeCreateWhere builds where together with sqlConds on the first call)
+  \cup (IF f.where # f2.where \/ (f.conds # f2.conds /\ Writes("AttrConditionPlanner.where")) THEN {"AttrConditionPlanner.where"} ELSE {})
   \cup (IF f.attr # f2.attr THEN {"AttrConditionPlanner.AggregatedAttr"} ELSE {})
 
 \* fields of one plan object after n executions (ctx_1 .. ctx_n)
@@ -189,6 +190,9 @@ SameMeaning(q, s1, s2) ==
 
 \* THE PROPERTY, per query class and execution number: the expected outcome for the real code
 Diverges(q, k) == ~SameMeaning(q, ExecK(q, k).sem, Fresh(q, k).sem)
+\* (tables: TLC evaluates a constant definition once)
+DivT == [q \in Queries |-> [k \in 1..MaxExec |-> Diverges(q, k)]]
+FieldsT == [q \in Queries |-> [n \in 0..MaxExec |-> FieldsAfter(q, n)]]
 
 \* lemmas that hold whatever Mutates is
 \* a stale fingerprint cache alone never changes the meaning while From only advances
@@ -239,9 +243,9 @@ TypeOK == /\ \A p \in PlanIds : plans[p].n \in 0..MaxExec /\ plans[p].q \in Quer
           /\ last.writes \subseteq Fields
 \* what a call does depends on its own plan object only: however the calls of the plans interleave, the fields of a
 \* plan are those of n executions in isolation, and the last call behaved as the k-th execution in isolation
-Independent == /\ \A p \in PlanIds : plans[p] # NoPlan => plans[p].f = FieldsAfter(plans[p].q, plans[p].n)
-               /\ last.k > 0 => /\ last.same = ~Diverges(last.q, last.k)
-                                /\ last.writes = WrittenBy(FieldsAfter(last.q, last.k - 1), FieldsAfter(last.q, last.k))
+Independent == /\ \A p \in PlanIds : plans[p] # NoPlan => plans[p].f = FieldsT[plans[p].q][plans[p].n]
+               /\ last.k > 0 => /\ last.same = ~DivT[last.q][last.k]
+                                /\ last.writes = WrittenBy(FieldsT[last.q][last.k - 1], FieldsT[last.q][last.k])
 \* set-once fields are written by the first execution only
 SetOnceOnce == last.k > 1 => last.writes \cap SetOnce = {}
 \* only observed-to-be-written fields are ever written
